@@ -89,6 +89,17 @@ fn encode(c: &Case, pcm: &[i32]) -> Result<Finished, String> {
             return Err(format!("write:{}", o.full()));
         }
     }
+    // byte writers, undeclared total, every third such run: 1..(PCM frame size - 1) stray bytes after the last whole PCM
+    // frame.  They are dropped by finalize (documented) and must leave no trace: not in the audio, not in the MD5
+    if c.kind.is_byte() && !c.declare && u > 1 && (c.frames + c.chunks.len()) % 3 == 0 {
+        let k = 1 + (c.frames % (u - 1));
+        let stray: Vec<u8> = (0..k).map(|i| (0xA5u8).wrapping_add(i as u8 * 29)).collect();
+        let o = w.write(&[], Some(&stray), c.bps, c.ch as usize);
+        if !o.is_ok() {
+            w.forget();
+            return Err(format!("write:{}", o.full()));
+        }
+    }
     let before = stream.snapshot();
     let fo = w.finalize();
     if !fo.is_ok() {
